@@ -102,11 +102,16 @@ def run(tier, seed):
     for cfg in dev_cfgs:
         for N in Ns:
             D = 2 if (tier == 'thorough' or N == 8) else 1
-            units += ex.dev_units(cfg, entropy, N, D, nchunks=8 if D == 2 else 2, **common)
+            if cfg['cache_size'] == 0 and N > 8:
+                D = 0 if tier == 'quick' else 1  # every query recomputes from the root: ~5 s per execution
+            if cfg['wrapper'] == 'tree' and N > 8 and tier == 'quick':
+                D = 0
+            units += ex.dev_units(cfg, entropy, N, D, nchunks=8 if D else 1, **common)
     if tier == 'thorough':
         for cfg in dev_cfgs[:3]:
             units += ex.dev_units(cfg, entropy, 2000, 0, nchunks=1, **common)
     chk.count('work_units', len(units))
+    units.sort(key=lambda u: -(u.get('N', 0) * len(u.get('devsets', []))))
     for part in pmap(ex.run_unit, units):
         chk.merge(part)
     chk.assumptions = ["bit-identity is judged with torch.equal in one process, one thread, float64",
